@@ -64,12 +64,16 @@ Proof.
   rewrite IH by assumption. reflexivity.
 Qed.
 
-Lemma serve_conn_spec s peer targets fin :
+Definition over_resp (over : option N) : list resp :=
+  match over with Some code => [(code, [])] | None => [] end.
+
+Lemma serve_conn_spec s peer targets over fin :
   st_listening s = true ->
-  snd (serve_conn s peer targets fin) = map (fun t => respond (allowed (st_allow s) peer) t (st_render s)) targets /\
-  st_allow (fst (serve_conn s peer targets fin)) = st_allow s /\
-  st_listening (fst (serve_conn s peer targets fin)) = true /\
-  st_render (fst (serve_conn s peer targets fin)) = st_render s.
+  snd (serve_conn s peer targets over fin) =
+    map (fun t => respond (allowed (st_allow s) peer) t (st_render s)) targets ++ over_resp over /\
+  st_allow (fst (serve_conn s peer targets over fin)) = st_allow s /\
+  st_listening (fst (serve_conn s peer targets over fin)) = true /\
+  st_render (fst (serve_conn s peer targets over fin)) = st_render s.
 Proof.
   intros Hl. unfold serve_conn.
   pose proof (accept_state s peer Hl) as Ea.
@@ -77,12 +81,28 @@ Proof.
   assert (Hf : find_conn (c_id (new_conn s peer)) (st_conns s1) = Some (new_conn s peer)).
   { rewrite Ea. cbn [st_conns]. unfold find_conn. cbn [find]. rewrite N.eqb_refl. reflexivity. }
   pose proof (requests_run s1 (new_conn s peer) targets Hf eq_refl) as Er.
-  cbn [new_conn c_id c_allowed] in Er. rewrite Er. cbn [fst snd].
-  destruct (step_preserves s1 (Conn (st_next s) fin)) as [P1 P2].
-  assert (P3 : st_render (fst (step s1 (Conn (st_next s) fin))) = st_render s1)
-    by (apply step_render; intros r; discriminate).
-  rewrite P1, P2, P3, Ea. cbn [st_allow st_listening st_render].
-  repeat split. rewrite map_map. reflexivity.
+  cbn [new_conn c_id c_allowed] in Er. rewrite Er.
+  assert (S1 : st_allow s1 = st_allow s /\ st_listening s1 = true /\ st_render s1 = st_render s)
+    by (rewrite Ea; repeat split).
+  destruct S1 as (A1 & L1 & R1).
+  destruct over as [code|].
+  - (* the oversize request: answered by the HTTP layer, the connection ends *)
+    assert (Eo : snd (step s1 (Conn (st_next s) (EvOversize code))) = Some (code, [])).
+    { cbn [step]. cbn [new_conn c_id] in Hf. rewrite Hf. reflexivity. }
+    destruct (step_preserves s1 (Conn (st_next s) (EvOversize code))) as [P1 P2].
+    assert (P3 : st_render (fst (step s1 (Conn (st_next s) (EvOversize code)))) = st_render s1)
+      by (apply step_render; intros r; discriminate).
+    destruct (step s1 (Conn (st_next s) (EvOversize code))) as [s3 oo]. cbn [fst snd] in *. subst oo.
+    destruct (step_preserves s3 (Conn (st_next s) fin)) as [Q1 Q2].
+    assert (Q3 : st_render (fst (step s3 (Conn (st_next s) fin))) = st_render s3)
+      by (apply step_render; intros r; discriminate).
+    rewrite Q1, Q2, Q3, P1, P2, P3, A1, L1, R1. repeat split.
+    rewrite map_app, map_map. cbn [map unwrap over_resp]. try rewrite Ea; cbn [st_render]; reflexivity.
+  - destruct (step_preserves s1 (Conn (st_next s) fin)) as [P1 P2].
+    assert (P3 : st_render (fst (step s1 (Conn (st_next s) fin))) = st_render s1)
+      by (apply step_render; intros r; discriminate).
+    cbn [fst snd]. rewrite P1, P2, P3, A1, L1, R1. repeat split.
+    rewrite !app_nil_r, map_map. cbn [unwrap over_resp]. try rewrite Ea; cbn [st_render]; reflexivity.
 Qed.
 
 Lemma burst_spec n : forall s peer target,
@@ -94,8 +114,8 @@ Lemma burst_spec n : forall s peer target,
 Proof.
   induction n as [|k IH]; intros s peer target Hl; cbn [burst].
   - cbn [fst snd repeat]. repeat split. exact Hl.
-  - destruct (serve_conn_spec s peer [target] EvIdle Hl) as (R & A & L & Rd).
-    destruct (serve_conn s peer [target] EvIdle) as [s1 rs]. cbn [fst snd] in *.
+  - destruct (serve_conn_spec s peer [target] None EvIdle Hl) as (R & A & L & Rd).
+    destruct (serve_conn s peer [target] None EvIdle) as [s1 rs]. cbn [fst snd over_resp] in *. rewrite app_nil_r in R.
     destruct (IH s1 peer target L) as (R' & A' & L' & Rd').
     destruct (burst s1 k peer target) as [s2 rs']. cbn [fst snd] in *.
     subst rs rs'. rewrite A, Rd. cbn [map repeat app]. repeat split; congruence.
@@ -107,27 +127,38 @@ Lemma respond_spec al_model al peer t r :
   respond (allowed al_model peer) t r = spec_respond al peer t r.
 Proof. intros E. unfold spec_respond. rewrite <- E. reflexivity. Qed.
 
+Lemma refused_code code : negb (code =? 200) = true -> refused (code, []) = true.
+Proof. intros H. unfold refused. cbn [fst snd]. rewrite H. reflexivity. Qed.
+
 Lemma run_sstep_spec al s st :
   st_listening s = true -> wf_sstep st = true ->
   (forall peer, wf_ip peer = true -> allowed (st_allow s) peer = spec_allowed al peer) ->
-  snd (run_sstep s st) = spec_sout al st /\
+  snd (run_sstep s st) = spec_sout al st (snd (run_sstep s st)) /\
   st_allow (fst (run_sstep s st)) = st_allow s /\ st_listening (fst (run_sstep s st)) = true.
 Proof.
-  intros Hl Hw Hal. destruct st as [peer render targets|n peer render target|kind peer|]; cbn [run_sstep wf_sstep spec_sout] in *.
-  - set (s0 := fst (step s (Update render))).
+  intros Hl Hw Hal. destruct st as [peer render targets over|n peer render target|kind peer|]; cbn [run_sstep wf_sstep spec_sout] in *.
+  - apply andb_prop in Hw as [Hw Ho].
+    set (s0 := fst (step s (Update render))).
     assert (L0 : st_listening s0 = true) by (unfold s0; cbn [step fst st_listening]; exact Hl).
-    destruct (serve_conn_spec s0 peer targets EvClose L0) as (R & A & L & _).
-    destruct (serve_conn s0 peer targets EvClose) as [s1 rs]. cbn [fst snd] in *.
-    subst rs. repeat split; [|exact A|exact L]. f_equal. apply map_ext. intros t.
-    apply respond_spec. apply Hal. exact Hw.
+    destruct (serve_conn_spec s0 peer targets (option_map fst over) EvClose L0) as (R & A & L & _).
+    destruct (serve_conn s0 peer targets (option_map fst over) EvClose) as [s1 rs]. cbn [fst snd] in *.
+    repeat split; [|exact A|exact L].
+    assert (Em : map (fun t => respond (allowed (st_allow s0) peer) t (st_render s0)) targets =
+                 map (fun t => spec_respond al peer t render) targets).
+    { apply map_ext. intros t. apply respond_spec. apply Hal. exact Hw. }
+    rewrite Em in R. subst rs. f_equal. f_equal.
+    destruct over as [[code t]|]; [|reflexivity]. cbn [option_map fst over_resp].
+    rewrite app_nth2 by (rewrite map_length; apply le_n).
+    rewrite map_length, PeanoNat.Nat.sub_diag. cbn [nth]. unfold over_expected.
+    rewrite refused_code by exact Ho. reflexivity.
   - set (s0 := fst (step s (Update render))).
     assert (L0 : st_listening s0 = true) by (unfold s0; cbn [step fst st_listening]; exact Hl).
     destruct (burst_spec (N.to_nat n) s0 peer target L0) as (R & A & L & _).
     destruct (burst s0 (N.to_nat n) peer target) as [s1 rs]. cbn [fst snd] in *.
     subst rs. repeat split; [|exact A|exact L]. f_equal. f_equal.
     apply respond_spec. apply Hal. exact Hw.
-  - destruct (serve_conn_spec s peer [] (fault_event kind) Hl) as (_ & A & L & _).
-    destruct (serve_conn s peer [] (fault_event kind)) as [s1 rs]. cbn [fst snd] in *.
+  - destruct (serve_conn_spec s peer [] None (fault_event kind) Hl) as (_ & A & L & _).
+    destruct (serve_conn s peer [] None (fault_event kind)) as [s1 rs]. cbn [fst snd] in *.
     repeat split; assumption.
   - cbn [fst snd]. repeat split. exact Hl.
 Qed.
@@ -135,12 +166,12 @@ Qed.
 Lemma run_ssteps_spec al steps : forall s,
   st_listening s = true -> forallb wf_sstep steps = true ->
   (forall peer, wf_ip peer = true -> allowed (st_allow s) peer = spec_allowed al peer) ->
-  run_ssteps s steps = map (spec_sout al) steps.
+  run_ssteps s steps = spec_souts al steps (run_ssteps s steps).
 Proof.
   induction steps as [|st r IH]; intros s Hl Hw Hal; [reflexivity|].
   cbn [forallb] in Hw. apply andb_prop in Hw as [Hw1 Hw2].
-  cbn [run_ssteps map]. destruct (run_sstep_spec al s st Hl Hw1 Hal) as (O & A & L).
-  destruct (run_sstep s st) as [s1 o]. cbn [fst snd] in *. subst o. f_equal.
+  cbn [run_ssteps spec_souts]. destruct (run_sstep_spec al s st Hl Hw1 Hal) as (O & A & L).
+  destruct (run_sstep s st) as [s1 o]. cbn [fst snd hd tl] in *. f_equal; [exact O|].
   apply IH; [exact L | exact Hw2 |]. intros peer Hp. rewrite A. apply Hal. exact Hp.
 Qed.
 
@@ -237,11 +268,32 @@ Qed.
 Theorem spec_ok_serve_iff entries steps o :
   spec_ok (CServe entries steps) o = true <->
   wf_case (CServe entries steps) = true /\
-  o = OServe (map (spec_sout (spec_allowlist_s (map snd entries))) steps).
+  exists l, o = OServe l /\ l = spec_souts (spec_allowlist_s (map snd entries)) steps l.
 Proof.
   unfold spec_ok. rewrite andb_true_iff. split.
-  - intros [Hw H]. split; [exact Hw|]. destruct o; try discriminate. apply dec2b_true in H. subst. reflexivity.
-  - intros [Hw ->]. split; [exact Hw|]. apply dec2b_refl.
+  - intros [Hw H]. split; [exact Hw|]. destruct o; try discriminate. apply dec2b_true in H. exists l. auto.
+  - intros [Hw (l & -> & E)]. split; [exact Hw|]. apply dec2b_true. exact E.
+Qed.
+
+(* what the fixed-point form says, step by step *)
+Theorem spec_souts_meaning al : forall steps l,
+  l = spec_souts al steps l <->
+  length l = length steps /\ forall i st o, nth_error steps i = Some st -> nth_error l i = Some o -> o = spec_sout al st o.
+Proof.
+  induction steps as [|st r IH]; intros l; cbn [spec_souts].
+  - split.
+    + intros ->. split; [reflexivity|]. intros [|i] st o H; discriminate.
+    + intros [H _]. destruct l; [reflexivity|discriminate].
+  - split.
+    + intros E. destruct l as [|o l']; [discriminate|]. cbn [hd tl] in E. injection E as E1 E2.
+      apply IH in E2 as [E2 E3]. split; [cbn [length]; congruence|].
+      intros [|i] st' o' H1 H2; cbn [nth_error] in *.
+      * inversion H1; inversion H2; subst. exact E1.
+      * eapply E3; eassumption.
+    + intros [Hlen H]. destruct l as [|o l']; [discriminate|]. cbn [hd tl]. f_equal.
+      * apply (H 0%nat st o); reflexivity.
+      * apply IH. split; [cbn [length] in Hlen; congruence|].
+        intros i st' o' H1 H2. apply (H (S i) st' o'); assumption.
 Qed.
 
 Theorem spec_ok_entry_sound e intent peers o :
